@@ -1,8 +1,11 @@
 (* Executable model of Server::run and its surroundings (src/Socket/Server.cpp, the epoll
    variant of Socket::Poll in src/Socket/Socket.cpp).  It mirrors the code decision by
    decision, as the code is in /repo after the committed repairs fixes/C01 (MultiMap::find
-   returns the first entry of an equal run) and fixes/C13/01 (the write readiness of a client
-   event is handled first, the read readiness of the same event afterwards).  No proofs in
+   returns the first entry of an equal run), fixes/C13/01 (the write readiness of a client
+   event is handled first, the read readiness of the same event afterwards), fixes/C14/01 (a
+   client removed from inside the onAccepted/onConnected that announces it is deleted when that
+   callback returns and never gets a callback object) and fixes/C14/02 (the poll time-out is
+   computed after the closing pass, whose onClosed callbacks may create timers).  No proofs in
    this file.
 
    Environment (universally quantified inputs): the clock (advanced by [AAdv] and by the [dt]
@@ -99,7 +102,9 @@ Inductive op :=
 | OAcceptq (l : list bool)
 | OConnq (l : list Z).
 
-Record client := mkCl { c_cb : bool; c_back : Z; c_susp : bool }.
+(* c_cb: a callback object is installed (false only while the client is being announced);
+   c_rm: remove() was called while it was being announced (ClientImpl::_removed) *)
+Record client := mkCl { c_cb : bool; c_back : Z; c_susp : bool; c_rm : bool }.
 
 Record state := mkSt {
   clk : Z;
@@ -264,12 +269,20 @@ Definition delete_client (i : Z) (s : state) : state :=
   set_clients (aremove Z.eqb i (clients s)) s.
 
 Definition new_client (i : Z) (s : state) : state :=
-  let s := set_clients (clients s ++ [(i, mkCl false 0 false)]) s in
+  let s := set_clients (clients s ++ [(i, mkCl false 0 false false)]) s in
   let s := set_used (Cl i :: used s) s in
   poll_set (Cl i) fl_R s.
 
 Definition upd_client (i : Z) (c : client) (s : state) : state :=
   set_clients (aset Z.eqb i c (clients s)) s.
+
+(* the client as far as the application may still use it (the test never touches a client again
+   after remove() returned) *)
+Definition live_client (i : Z) (s : state) : option client :=
+  match alookup Z.eqb i (clients s) with
+  | Some c => if c_rm c then None else Some c
+  | None => None
+  end.
 
 Definition send_result (n : Z) (o : sendout) : Z :=
   match o with SWould => -1 | SErr => -2 | SSent k => Z.max 0 (Z.min k n) end.
@@ -305,13 +318,13 @@ Definition exec_action (a : action) (s : state) : state :=
       if fresh (Cl i) s then
         let s := log (EvCreated (Cl i) 0 0) s in
         let s := new_client i s in
-        upd_client i (mkCl true 0 false) s
+        upd_client i (mkCl true 0 false false) s
       else log EvSkip s
   | ARmClient i =>
-      match alookup Z.eqb i (clients s) with
+      match live_client i s with
       | Some c =>
           if c_cb c then log (EvRemoved (Cl i)) (delete_client i s)
-          else log (EvDeferred (Cl i)) (closing_append i s)
+          else log (EvDeferred (Cl i)) (upd_client i (mkCl false (c_back c) (c_susp c) true) s)
       | None => log EvSkip s
       end
   | AListen i =>
@@ -341,7 +354,7 @@ Definition exec_action (a : action) (s : state) : state :=
         log (EvRemoved (Es i)) s
       else log EvSkip s
   | AWrite i n =>
-      match alookup Z.eqb i (clients s) with
+      match live_client i s with
       | Some c =>
           if n <? 1 then log EvSkip s else
           if c_back c =? 0 then
@@ -353,16 +366,16 @@ Definition exec_action (a : action) (s : state) : state :=
               let sent := Z.max 0 r in
               if n <=? sent then log (EvWrote i true 0) s
               else
-                let s := upd_client i (mkCl (c_cb c) (n - sent) (c_susp c)) s in
+                let s := upd_client i (mkCl (c_cb c) (n - sent) (c_susp c) (c_rm c)) s in
                 let s := poll_set (Cl i) (if c_susp c then fl_W else fl_RW) s in
                 log (EvWrote i true (n - sent)) s
           else
-            let s := upd_client i (mkCl (c_cb c) (c_back c + n) (c_susp c)) s in
+            let s := upd_client i (mkCl (c_cb c) (c_back c + n) (c_susp c) (c_rm c)) s in
             log (EvWrote i true (c_back c + n)) s
       | None => log EvSkip s
       end
   | ARead i =>
-      match alookup Z.eqb i (clients s) with
+      match live_client i s with
       | Some c =>
           let r := recv_result (next_recv s) in
           let s := drop_recv s in
@@ -372,18 +385,18 @@ Definition exec_action (a : action) (s : state) : state :=
       | None => log EvSkip s
       end
   | ASuspend i =>
-      match alookup Z.eqb i (clients s) with
+      match live_client i s with
       | Some c =>
           if c_susp c then s else
-          let s := upd_client i (mkCl (c_cb c) (c_back c) true) s in
+          let s := upd_client i (mkCl (c_cb c) (c_back c) true (c_rm c)) s in
           poll_set (Cl i) (if c_back c =? 0 then fl_none else fl_W) s
       | None => log EvSkip s
       end
   | AResume i =>
-      match alookup Z.eqb i (clients s) with
+      match live_client i s with
       | Some c =>
           if negb (c_susp c) then s else
-          let s := upd_client i (mkCl (c_cb c) (c_back c) false) s in
+          let s := upd_client i (mkCl (c_cb c) (c_back c) false (c_rm c)) s in
           poll_set (Cl i) (if c_back c =? 0 then fl_R else fl_RW) s
       | None => log EvSkip s
       end
@@ -403,6 +416,9 @@ Definition callback (e : ent) (k : cbkind) (s : state) : state :=
   run_script e (SCb k) (log (EvCb e k (clk s)) s).
 
 (* ---------- Server::Private::run ------------------------------------------------------------- *)
+(* the buffered events as the state dump shows them *)
+Definition sel_view (l : list (ent * fl)) : list (ent * Z) := map (fun x => (fst x, fl_to_Z (snd x))) l.
+
 Fixpoint timer_phase (fuel : nat) (now : Z) (s : state) : state :=
   match fuel with
   | O => set_stuck true s
@@ -437,7 +453,8 @@ Fixpoint closing_phase (fuel : nat) (s : state) : state :=
           let s := set_closing r s in
           match alookup Z.eqb i (clients s) with
           | Some c => if c_cb c then closing_phase f (callback (Cl i) KClosed s)
-                      else closing_phase f (log (EvRemoved (Cl i)) (delete_client i s))   (* unreachable *)
+                      else closing_phase f (if c_rm c then delete_client i s                (* unreachable *)
+                                            else log (EvRemoved (Cl i)) (delete_client i s))
           | None => closing_phase f s                           (* unreachable: closing => pooled *)
           end
       end
@@ -458,7 +475,8 @@ Definition introduce (e : ent) (k : ikind) (i : Z) (acc : bool) (s : state) : st
   let s := log (EvIntroRet i acc) s in
   if acc then
     match alookup Z.eqb i (clients s) with
-    | Some c => upd_client i (mkCl true (c_back c) (c_susp c)) s
+    | Some c => if c_rm c then delete_client i s       (* removed meanwhile: no callback object is installed *)
+                else upd_client i (mkCl true (c_back c) (c_susp c) false) s
     | None => s
     end
   else delete_client i s.
@@ -472,12 +490,12 @@ Definition dispatch_write (i : Z) (also_read : bool) (s : state) : state :=
         let s := drop_send s in
         let s := log (EvSend i (c_back c) r true) s in
         if failed_io r then
-          let s := upd_client i (mkCl (c_cb c) 0 (c_susp c)) s in
+          let s := upd_client i (mkCl (c_cb c) 0 (c_susp c) (c_rm c)) s in
           let s := poll_remove (Cl i) s in
           callback (Cl i) KClosed s
         else
           let back := c_back c - Z.max 0 r in
-          let s := upd_client i (mkCl (c_cb c) back (c_susp c)) s in
+          let s := upd_client i (mkCl (c_cb c) back (c_susp c) (c_rm c)) s in
           if back =? 0 then
             let s := poll_set (Cl i) (if c_susp c then fl_none else fl_R) s in
             callback (Cl i) KWrite s
@@ -525,11 +543,13 @@ Fixpoint run_loop (fuel : nat) (items : list epitem) (s : state) : state :=
   | O => set_stuck true s
   | S f =>
       let now := clk s in
+      let sel := sel_view (selected s) in
       let s := log (EvNow now) s in
+      let s := log (EvSel sel) s in
       let s := timer_phase f now s in
-      let timeout := match queue s with (k, _) :: _ => k - now | [] => 0 end in
       let s := closing_phase f s in
       if stuck s then s else
+      let timeout := match queue s with (k, _) :: _ => k - now | [] => 0 end in
       let '(s, evt, items) := poll timeout items s in
       match evt with
       | Some (e, fl) =>
